@@ -50,6 +50,21 @@ def run(ctx):
             rctx = [hirq.cond_key(c) for c in hirq.conditions(L.context(r))]
             if rctx == uctx[:len(rctx)]:
                 ok = True
+        if not ok and arm_of.get(id(u)) in C.arms and isinstance(C.arms[arm_of.get(id(u))], dict):
+            # the same question on the enumerated paths of the arm: on every path that executes this removal, the entry is put back
+            # (the same sender under the same key - taken out only to be used) or the ID is released
+            role = arm_of[id(u)]
+            pouts = [o for o in driver.arm_paths(C, role)[0] if o.kind != 'div' and any(e[0] == 'call' and e[3] is u for e in o.st.ev)]
+            def path_ok(o):
+                ev = [e for e in o.st.ev if e[0] == 'call' and e[3] is u][0]
+                k = ev[2][1]
+                rterm = ('call', ev[1], ev[2], u.get('id'))
+                if sem.failed(o, lambda v: v == rterm):
+                    return True         # nothing was registered under the key: nothing was removed
+                if driver.net_registration(C, o, w, k) == 'kept':
+                    return True
+                return any(args[1] == k for i, name, args, node in driver.map_calls(C, o, 'idset', ('remove',)))
+            ok = bool(pouts) and all(path_ok(o) for o in pouts)
         ctx.add('K1.unroute-implies-release', '%s|%s|%s' % (arm_of.get(id(u), '?'), w, hirq.fmt_origin(key).split('.')[-1] if False else hirq.fmt_origin(key)[-40:]), loc(u), ok,
                 'the routing entry for %s is removed from the %s map without releasing that message ID: it stays reserved forever' % (hirq.fmt_origin(key), w))
 
